@@ -206,8 +206,9 @@ pub fn case_child(args: &Args) {
         })
         .collect();
     let acl_mode = *rng.pick(&[0u8, 0, 1, 2]);
+    let acl_file = format!("/verif/.cache/scratch/ws-sys-acl-{}.txt", std::process::id());
     if acl_mode != 0 {
-        let path = format!("/verif/.cache/scratch/ws-sys-acl-{}.txt", std::process::id());
+        let path = acl_file.clone();
         std::fs::create_dir_all("/verif/.cache/scratch").unwrap();
         std::fs::write(&path, format!("{}\n", pool[0].iter().map(|b| format!("{:02x}", b)).collect::<String>())).unwrap();
         c.access_list.path = path.into();
@@ -260,6 +261,22 @@ pub fn case_child(args: &Args) {
             let c = open(port);
             println!("ITEM WSysStep {} (COpen false) []", who(&c));
             clients[i] = Some(c);
+            continue;
+        }
+        if acl_mode != 0 && rng.chance(1, 8) {
+            // rewrite the access list and signal the tracker (SIGUSR1); sometimes the new file is unreadable
+            let ok = rng.chance(3, 4);
+            let listed: Vec<[u8; 20]> = pool.iter().copied().filter(|_| rng.chance(1, 2)).collect();
+            let mut text: String = listed.iter().map(|h| format!("{}\n", h.iter().map(|b| format!("{:02x}", b)).collect::<String>())).collect();
+            if !ok {
+                text.push_str("zz\n");
+            }
+            std::fs::write(&acl_file, text).unwrap();
+            unsafe {
+                libc::kill(libc::getpid(), libc::SIGUSR1);
+            }
+            std::thread::sleep(Duration::from_millis(250));
+            println!("ITEM WSysReload {} {}", cq::list(&listed.iter().map(cq::id20).collect::<Vec<_>>()), cq::b(ok));
             continue;
         }
         let kind = rng.below(22);
@@ -489,6 +506,7 @@ pub fn case_child(args: &Args) {
             println!("ITEM WSysStep {} (CScrape (Some [{}])) {}", me, cq::id20(h), cq::list(&terms));
         }
     }
+    let _ = std::fs::remove_file(&acl_file);
     std::process::exit(0);
 }
 
